@@ -58,7 +58,7 @@ PROPS = {
         "not_covered": ["RSA/PKCS#1 internals (rsa_decrypt is an uninterpreted function)", "verify_token for slices longer than 40 bytes (Kani bound; the comparison is length-first)"],
         "assumptions": ["adapters, RSA decryption, HMAC, JSON (de)serialisation are deterministic uninterpreted functions of their arguments",
                         "packet decoding is a deterministic function of the frame body (decode_of)",
-                        "suspension points erased (R1); tokio::select! modelled as nondeterministic choice of the winning arm (R8)"],
+                        "suspension points erased (R1); tokio::select! modelled as nondeterministic choice of the winning arm (R8); the losing keep_alive() arm stops between two iterations of its loop (R8c)"],
     },
     "C02": {
         "units": ["U3", "U2", "U4"],
@@ -113,10 +113,16 @@ PROPS = {
         "explanation": "State logic only: keep_alive_id == outstanding(event log) is a verified representation invariant of receive_packet, "
                        "handle_keep_alive and keep_alive; the tick branch sends the localized timeout Disconnect and fails iff an id is outstanding, else "
                        "sends exactly one Keep Alive; receive_packet(false) never sends; handle_keep_alive clears iff the ids are equal. The trace predicate ka_wf "
-                       "(a Keep Alive is sent only directly after a timer tick and only while none is unanswered) is preserved by every function and is a postcondition of listen.",
+                       "(a Keep Alive is sent only directly after a timer tick and only while none is unanswered; a Disconnect directly after a tick - the inactivity timeout - only "
+                       "while one is unanswered) is preserved by every function and is a postcondition of listen. The echo is tied to the wire: handle_keep_alive(id) requires that "
+                       "the last frame taken from the client is a configuration Keep Alive (0x04) decoding to that id, and the loops of keep_alive() and of listen keep "
+                       "echo_settled (every such frame was handed to handle_keep_alive before the next read). listen is verified with keep_alive() traffic interleaved between the "
+                       "routing steps (R8c: the losing keep_alive() arm of each select! leaves the state of its loop invariant, proved in U4).",
         "not_covered": ["'at least every 16 seconds', 'not dropped however long routing takes', 'Transfer as soon as routing completes': wall-clock and "
                         "scheduler facts of tokio Interval/select!, outside sequential contracts"],
-        "assumptions": ["Interval::tick completes when a period elapsed (not modelled)"],
+        "assumptions": ["Interval::tick completes when a period elapsed (not modelled)",
+                        "R8c: a keep_alive() future that loses a select! is dropped between two iterations of its loop (cancellation inside an iteration - a half-read "
+                        "frame, a half-written packet - is C08, not applicable)"],
     },
     "C10": {
         "units": ["U3", "U2", "U4"],
